@@ -22,7 +22,7 @@ impl Minimizer {
             return crate::subprocess_fails(self.prop, spec, &self.class);
         }
         let o = crate::run_for_prop(self.prop, spec, false);
-        match o.violation {
+        match o.violation.or(o.soft) {
             Some(a) => a.class == self.class,
             None => false,
         }
@@ -53,7 +53,7 @@ impl Minimizer {
         let budget = std::time::Duration::from_secs(25);
         // 0. everything after the failing step is irrelevant
         if !self.subprocess {
-            if let Some(a) = crate::run_for_prop(self.prop, &cur, false).violation {
+            if let Some(a) = { let o2 = crate::run_for_prop(self.prop, &cur, false); o2.violation.or(o2.soft) } {
                 if a.op_index + 1 < cur.ops.len() {
                     let kept: Vec<usize> = (0..=a.op_index).collect();
                     let cand = Self::with_ops(&cur, &kept);
